@@ -104,7 +104,7 @@ Proof.
   cbn [app]. rewrite app_nil_r.
   destruct (runT BUF (c_pmax (sc_conn x)) ph _ []) as [ph' carry outs|outs e|]; [| |destruct SRm].
   - destruct SRm as (_ & _ & _ & -> & _). apply yields_of_own.
-  - destruct SRm as (_ & _ & _ & ->). reflexivity.
+  - destruct SRm as (_ & _ & _ & -> & _). reflexivity.
 Qed.
 
 (* ---------- a write leaves the parser half of the connection alone ---------- *)
@@ -413,6 +413,56 @@ Proof.
 Qed.
 
 End SY.
+
+(* ---------- C11 at the server ---------- *)
+Section SErr.
+Variable BUF : nat.
+Hypothesis BUF_min : (2 <= BUF)%nat.
+Hypothesis BUF_u32 : N.of_nat BUF < U32_LIMIT.
+
+(* a read whose bytes the parser rejects: nothing is yielded -- not the rejected request, not the requests
+   completed earlier in the same read -- the 400 is queued, and the connection's parser is that of a new
+   connection: waiting for a request line, empty window, nothing parsed, no descriptors, same limit *)
+Theorem server_rejected_read w toks fd kk w' ys x ph outs e :
+  Inv BUF w toks -> alookup fd (w_conns w) = Some x -> CInv BUF (sc_conn x) ph ->
+  k_tosrv (client_of w (sc_client x)) <> [] ->
+  handle_event BUF w (EvIn fd kk) = inl (w', ys) ->
+  let c := sc_conn x in
+  let t := k_tosrv (client_of w (sc_client x)) in
+  let d := firstn (read_amount kk (BUF - length (c_win c)) (length t)) t in
+  runT BUF (c_pmax c) ph (c_win c ++ d) [] = RErr outs e ->
+  ys = [] /\
+  exists y, alookup fd (w_conns w') = Some y /\ sc_gid y = sc_gid x /\ sc_client y = sc_client x /\
+    CInv BUF (sc_conn y) PLine /\ c_win (sc_conn y) = [] /\ c_parsed (sc_conn y) = [] /\ c_files (sc_conn y) = [] /\
+    c_pmax (sc_conn y) = c_pmax c /\
+    unsent (sc_conn y) = unsent c ++ flat_map serialize (conts_of outs ++ [bad_request_response e]).
+Proof.
+  intros HI HL I Hne Hin. cbn zeta. intros HR.
+  pose proof (server_read_exact BUF BUF_min BUF_u32 w toks fd kk w' ys x ph HI HL I Hne Hin) as SR. cbn zeta in SR.
+  rewrite HR in SR. destruct SR as (_ & y & L & G & C & _ & A1 & A2 & A3 & A4 & A5 & A6 & A7).
+  split; [exact A4|]. exists y. auto 12.
+Qed.
+
+(* and from such a state everything that follows is handled as by a new connection: polling while ready
+   yields exactly the requests of the whole-stream parser started afresh on the input that follows *)
+Theorem server_continues_as_new w toks acc fd x phF carryF outsF :
+  Inv BUF w toks -> Calm w -> alookup fd (w_conns w) = Some x ->
+  CInv BUF (sc_conn x) PLine -> c_win (sc_conn x) = [] -> c_parsed (sc_conn x) = [] -> c_files (sc_conn x) = [] ->
+  parse_stream BUF (c_pmax (sc_conn x)) (k_tosrv (client_of w (sc_client x))) = RMore phF carryF outsF ->
+  exists n, match drive BUF n w acc with
+            | DQuiet w2 ys =>
+                yields_of fd ys = yields_of fd acc ++ map (fun r => (fd, sc_gid x, r)) (reqs_of outsF []) /\
+                exists x2, alookup fd (w_conns w2) = Some x2 /\ CInv BUF (sc_conn x2) phF /\ c_win (sc_conn x2) = carryF /\
+                           sc_gid x2 = sc_gid x /\ k_tosrv (client_of w2 (sc_client x)) = []
+            | DOverflow => True
+            | DFuel => False
+            end.
+Proof.
+  intros HI HC HL I Hw Hp Hf HR.
+  apply (drive_yields_exact BUF BUF_min BUF_u32 w toks acc fd x PLine phF carryF outsF HI HC HL I Hp Hf).
+  rewrite Hw. exact HR.
+Qed.
+End SErr.
 
 (* non-vacuity: a client connects having sent two pipelined requests; after the accepting poll, polling while
    ready yields exactly those two requests, in order, once each, under the connection's descriptor *)
